@@ -116,10 +116,18 @@ pub fn model_row(query: &Select, env: &HashMap<String, V>, star: &[V]) -> RowOut
 /// Compares the real output with the model outcomes of the qualifying-row candidates, in order.
 /// `describe(i)` names candidate i in messages. Returns the number of unspecified stops.
 pub fn compare_rows(names: &[String], outcomes: &[RowOutcome], real: &RunOut, exprs: &[&E], describe: &dyn Fn(usize) -> String) -> Result<u64, Failure> {
+    let groups: Vec<usize> = (0..outcomes.len()).collect();
+    compare_rows_grouped(names, outcomes, &groups, real, exprs, describe)
+}
+
+/// `groups[i]` = the input line candidate i stems from. The rows one input line produces (a join fan-out) are
+/// printed together, so an error on one of them may withhold the line's earlier rows.
+pub fn compare_rows_grouped(names: &[String], outcomes: &[RowOutcome], groups: &[usize], real: &RunOut, exprs: &[&E], describe: &dyn Fn(usize) -> String) -> Result<u64, Failure> {
     let records = real.records();
     let errored = real.result.is_err();
     let mut idx = 0usize;
     let mut err_allowed = false;
+    let group_errs = |j: usize| outcomes.iter().zip(groups.iter()).any(|(o, g)| *g == groups[j] && matches!(o, RowOutcome::Error { .. } | RowOutcome::Unspec | RowOutcome::Emit { or_err: true, .. } | RowOutcome::Skip { or_err: true }));
     for (j, outcome) in outcomes.iter().enumerate() {
         match outcome {
             RowOutcome::Unspec => return Ok(1),
@@ -141,7 +149,7 @@ pub fn compare_rows(names: &[String], outcomes: &[RowOutcome], real: &RunOut, ex
             RowOutcome::Emit { cells, or_err } => {
                 err_allowed |= *or_err;
                 if idx >= records.len() {
-                    if errored && err_allowed {
+                    if errored && (err_allowed || group_errs(j)) {
                         return Ok(0);
                     }
                     if errored {
